@@ -636,7 +636,9 @@ func ruleWRSyms(p *Prog, r *Reporter) {
 		for _, c := range callsIn(fn) {
 			if isCallTo(c.Common(), "datalog.SymbolTable.SplitOff") {
 				a := c.Common().Args
-				if p.D(a[0]) == fn.Params[0].Name()+".symbols" && p.D(a[1]) == fn.Params[0].Name()+".symbolsStart" {
+				B := fn.Params[0].Name()
+				// split the builder's table itself, or a clone of it (a builder that stays usable)
+				if (p.D(a[0]) == B+".symbols" || p.D(a[0]) == "datalog.SymbolTable.Clone("+B+".symbols)") && p.D(a[1]) == B+".symbolsStart" {
 					ok = true
 				}
 			}
@@ -850,7 +852,7 @@ func ruleWRElemwise(p *Prog, r *Reporter) {
 				}
 				counter := false
 				for _, rl := range rls {
-					if bo == rl.incr {
+					if bo == rl.step {
 						counter = true
 					}
 				}
